@@ -273,6 +273,21 @@ def lr_verdict(desc):
         Fl = pl.get_val("aero_point_0.aero_states.wing_sec_forces")
         Fr = pr.get_val("aero_point_0.aero_states.wing_sec_forces")
         out.close("lr/sec_forces", Fr[:, ::-1, :] * R, Fl, rtol=1e-9)
+        # ... and so must the sensitivities: d(CL, CD)/d(control points) of the right half are those of the left half with
+        # the control points in reverse order (y-shear: opposite sign); two live models of equal size in one process
+        of = ["aero_point_0.CL", "aero_point_0.CD"]
+        wrt = ["alpha"] + ["wing.%s_cp" % n for n in ("twist", "chord", "xshear", "yshear", "zshear") if n in desc["use"]]
+        if "span" in desc["use"]:
+            wrt.append("wing.span")
+        Jl = pl.compute_totals(of=of, wrt=wrt)
+        Jr = pr.compute_totals(of=of, wrt=wrt)
+        for o in of:
+            for w in wrt:
+                a, b = np.atleast_2d(Jl[o, w]), np.atleast_2d(Jr[o, w])
+                if w.endswith("_cp"):
+                    b = b[:, ::-1] * (-1.0 if "yshear" in w else 1.0)
+                sc = max(float(np.max(np.abs(a))), float(np.max(np.abs(b))))
+                out.close("lr/d_%s/d_%s" % (o.split(".")[-1], w.split(".")[-1]), b, a, rtol=1e-8, atol=1e-12, scale=sc)
     for u in desc["use"]:
         out.label("dv=" + u)
     out.label("ncp=%d" % desc["ncp"])
